@@ -4,8 +4,13 @@ open GV GV.C05
 /-
 Line protocol of C05 (a case = one `cfg` line followed by op lines; the state is threaded):
 
-  cfg kind=<none|simple|mem|shm|hdf> tol=<rat> pol=<wb><hb> in=<n:size:default|_;...> out=<n;...>
+  cfg kind=<none|simple|mem|shm|hdf> tol=<rat> pol=<wb><hb>[<snap>] in=<n:size:default|_;...> out=<n;...>
       din=<n,..|[]> dout=<n,..|[]> sj=<0|1> A=<o:row|row;...> b=<o:vals;...> q=<o:vals;...>
+      [wr=<n:k;...|_>] [alias=<o:n;...|_>]
+    pol: copy on write, copy on hit, snapshot of the inputs of an entry (1 = before the run (default),
+         2 = only the self-coupled inputs before the run, 0 = when the entry is written)
+    wr : the body adds `k` in place to (every component of) the array of input `n`
+    alias: the body returns the array of input `n` itself (or a full view of it) as output `o`
   new <id> <vals>            the caller creates an array
   mut <id> <vals>            the caller overwrites one of its arrays in place
   keep <id> <name>           the caller keeps the output array `name` returned by the last execute
@@ -20,6 +25,8 @@ Answer: `<result> | run=<n> jac=<n> | len=<n|_> | <entries>` (result: ok, E:.., 
 
 structure Poly where
   outs : List (Name × List (List Rat) × List Rat × List Rat)   -- name, A rows, b, q
+  wr : List (Name × Rat) := []                                 -- in-place updates `x_n += k`
+  alias : List (Name × Name) := []                             -- output `o` is the array of input `n`
 
 def dot : List Rat → List Rat → Rat
   | a :: as, b :: bs => a * b + dot as bs
@@ -40,6 +47,26 @@ def polyJac (inNames : List Name) (p : Poly) (x : Vals) : Jac :=
     (inNames.zip (offs.1.zip sizes)).map (fun (n, (k, s)) =>
       ((o, n), (List.range a.length).map (fun i =>
         (List.range s).map (fun j => (a.getD i []).getD (k + j) 0 + 2 * q.getD i 0 * xx.getD (k + j) 0)))))
+
+/-- The values the body leaves in its input arrays. -/
+def polyWr (inNames : List Name) (p : Poly) (x : Vals) : Vals :=
+  (inNames.zip x).map (fun (n, v) =>
+    match lookupN p.wr n with
+    | some k => v.map (· + k)
+    | none => v)
+
+def polyAlias (inNames outNames : List Name) (p : Poly) : List (Option Nat) :=
+  outNames.map (fun o =>
+    match lookupN p.alias o with
+    | some n => (let i := inNames.idxOf n; if i < inNames.length then some i else none)
+    | none => none)
+
+def parsePairs (s : String) : Option (List (Name × String)) :=
+  if s = "_" then some [] else
+  (s.splitOn ";").mapM (fun t =>
+    match t.splitOn ":" with
+    | [a, b] => some (a, b)
+    | _ => none)
 
 def kv (t : String) : Option (String × String) :=
   match t.splitOn "=" with
@@ -89,6 +116,13 @@ def parseCfg (toks : List String) : Option (Cfg × Poly) := do
   let a ← (← get "A") |> parseMat
   let b ← (← get "b") |> parseVecs
   let q ← (← get "q") |> parseVecs
+  let wrS ← parsePairs ((get "wr").getD "_")
+  let wr ← wrS.mapM (fun (n, k) => (parseRat? k).map (fun r => (n, r)))
+  let alias ← parsePairs ((get "alias").getD "_")
+  let snap : Snap := match pol.toList.getD 2 '1' with
+    | '0' => .post
+    | '2' => .coupledPre
+    | _ => .pre
   let pouts ← outs.mapM (fun o => do
     let ao ← lookupN a o
     let bo ← lookupN b o
@@ -96,10 +130,10 @@ def parseCfg (toks : List String) : Option (Cfg × Poly) := do
     pure (o, ao, bo, qo))
   let cfg : Cfg := {
     kind := kind, tol := tol,
-    pol := ⟨pol.toList.getD 0 '1' == '1', pol.toList.getD 1 '1' == '1'⟩,
+    pol := ⟨pol.toList.getD 0 '1' == '1', pol.toList.getD 1 '1' == '1', snap⟩,
     inNames := ins.map (·.1), defaults := ins.map (·.2), outNames := outs,
     dIn := din, dOut := dout, runSetsJac := sj == "1" }
-  pure (cfg, ⟨pouts⟩)
+  pure (cfg, { outs := pouts, wr := wr, alias := alias })
 
 def parseArgs (toks : List String) : Option (Nat × List (Name × Nat)) := do
   let kvs ← toks.mapM kv
@@ -181,7 +215,8 @@ def dstep (ds : DState) (line : String) : DState × String :=
       match parseOp toks with
       | none => (ds, "bad-op")
       | some op =>
-        let d : Disc := ⟨polyRun p, polyJac cfg.inNames p⟩
+        let d : Disc := { run := polyRun p, jacf := polyJac cfg.inNames p,
+                          wr := polyWr cfg.inNames p, aliasOf := polyAlias cfg.inNames cfg.outNames p }
         let (st', o) := step cfg d st op
         ({ cur := some (cfg, p, st') }, showOut cfg o ++ " | " ++ showState cfg st')
 
